@@ -336,6 +336,21 @@ def ctor_norm_interp(ctx):
             run(ctx, 'C01/base.slerp/' + nm, 'base.slerp', P, 'UQ', b.slerp, ref.r2q_ref(A), ref.r2q_ref(B), s, key=('slerp', nm))
             run(ctx, 'C01/UnitQuaternion.interp/' + nm, 'UnitQuaternion.interp', P, 'UQ',
                 lambda A=A, B=B, s=s: sm.UnitQuaternion(ref.r2q_ref(A)).interp(s, dest=sm.UnitQuaternion(ref.r2q_ref(B))), key=('UQi', nm))
+    # close pairs: the end pose is the start pose turned by a small angle (slerp changes arm for nearly equal quaternions)
+    S2 = S + [('0.7', 0.7)]
+    for an, A in G3[:5]:
+        for dn, dl in [('1e%d' % k, 10.0 ** k) for k in (alph.ks(tier) if tier != 'quick' else (-12, -9, -7, -6, -5, -4, -3, -2, -1))] + [('3e-4', 3e-4), ('2e-3', 2e-3)]:
+            for xn, ax in alph.axes(tier, seed)[2:5]:
+                B = A @ ref.mp_rot(ax, dl)
+                for sn, s in S2:
+                    nm = '%s/delta=%s/axis=%s/s=%s' % (an, dn, xn, sn)
+                    P = dict(start=an, delta=dn, axis=xn, s=sn)
+                    run(ctx, 'C01/base.trinterp/close/' + nm, 'base.trinterp', dict(P, form='SO3'), 'SO3', b.trinterp, A.copy(), B.copy(), s, key=('tic', nm))
+                    run(ctx, 'C01/base.slerp/close/' + nm, 'base.slerp', P, 'UQ', b.slerp, ref.r2q_ref(A), ref.r2q_ref(B) * (1 if ref.r2q_ref(A) @ ref.r2q_ref(B) >= 0 else -1), s, key=('slc', nm))
+                    run(ctx, 'C01/SE3.interp/close/' + nm, 'SE3.interp', P, 'SE3',
+                        lambda A=A, B=B, s=s: sm.SE3(ref.rt(B, (1.0, 2.0, 3.0))).interp(s, start=sm.SE3(ref.rt(A, (0.5, -1.5, 2.0)))), key=('sec', nm))
+                    run(ctx, 'C01/UnitQuaternion.interp/close/' + nm, 'UnitQuaternion.interp', P, 'UQ',
+                        lambda A=A, B=B, s=s: sm.UnitQuaternion(ref.r2q_ref(A)).interp(s, dest=sm.UnitQuaternion(ref.r2q_ref(B))), key=('uqc', nm))
     for (an, A), (bn, B) in itertools.product(GE3[:5], GE3):
         for sn, s in S:
             nm = '%s/%s/s=%s' % (an, bn, sn)
@@ -398,7 +413,7 @@ def bfs(ctx, cname, k, K):
             for mn, mv, nexp in moves:
                 name = '%s.%s' % (sn, mn)
                 cid = 'C01/%s/bfs/%s' % (cname, name)
-                if not ctx.want(cid):
+                if not ctx.want(cid, walk=True):
                     continue
                 ctx.case(cid)
                 ntrans += 1
